@@ -1,6 +1,7 @@
 import KV.Dump
 import KV.InstallModel
 import KV.Generated.Install
+import KV.Wire
 /-! Line-protocol driver for the executable models: one request per line on stdin, one canonical answer
     line on stdout.  The correspondence check pipes the same lines to the implementation's drivers
     (verif-tagged test files in /repo) and diffs the two streams.
@@ -153,6 +154,74 @@ def handleInstall (what : String) : String :=
     s!"F reported={r.reported} dest={sfileStr r.st.dest} tmp={sfileStr r.st.tmp}"
   | _ => "BAD"
 
+/-! wire / migrate model: `W ret <ty> | args <ty>.. | pkg <func>;.. | items <item>;..` with
+    ty = v<n> | p<n> | i<n> | b<n>; func = <name> <result ty> : <param ty>..;
+    item = f <func> | b <iface n> <impl ty> | s <n> : <field ty>.. | o <n> <ptrForm 0|1> : <field ty>.. -/
+def parseTy (t : String) : Option Wire.Ty :=
+  match t.toList with
+  | 'v' :: r => (String.ofList r).toNat?.map Wire.Ty.val
+  | 'p' :: r => (String.ofList r).toNat?.map Wire.Ty.ptr
+  | 'i' :: r => (String.ofList r).toNat?.map Wire.Ty.iface
+  | 'b' :: r => (String.ofList r).toNat?.map Wire.Ty.basic
+  | _ => none
+
+def parseTys (s : String) : List Wire.Ty := (words s).filterMap parseTy
+
+def parseFunc (s : String) : Option Wire.Func :=
+  match s.splitOn ":" with
+  | [hd, ps] =>
+    match words hd with
+    | [nm, rt] =>
+      match nm.toNat?, parseTy rt with
+      | some n, some r => some { name := n, params := parseTys ps, result := r }
+      | _, _ => none
+    | _ => none
+  | _ => none
+
+def parseItem (s : String) : Option Wire.Item :=
+  let s := s.trimAscii.toString
+  if s.startsWith "f " then (parseFunc (s.drop 2).toString).map Wire.Item.func
+  else if s.startsWith "b " then
+    match words (s.drop 2).toString with
+    | [i, impl] => match i.toNat?, parseTy impl with
+      | some n, some t => some (.bind n t)
+      | _, _ => none
+    | _ => none
+  else if s.startsWith "s " then
+    match (s.drop 2).toString.splitOn ":" with
+    | [n, fs] => (n.trimAscii.toString.toNat?).map (fun k => Wire.Item.structP k (parseTys fs))
+    | _ => none
+  else if s.startsWith "o " then
+    match (s.drop 2).toString.splitOn ":" with
+    | [hd, fs] => match words hd with
+      | [n, pf] => (n.toNat?).map (fun k => Wire.Item.fieldsOf k (pf == "1") (parseTys fs))
+      | _ => none
+    | _ => none
+  else none
+
+def sectOf (parts : List String) (key : String) : String :=
+  match parts.find? (fun p => p.trimAscii.toString.startsWith key) with
+  | some p => (p.trimAscii.toString.drop key.length).toString
+  | none => ""
+
+def handleWire (line : String) : String :=
+  let parts := line.splitOn "|"
+  match parseTy (sectOf parts "ret").trimAscii.toString with
+  | none => "BAD"
+  | some ret =>
+    let args := parseTys (sectOf parts "args")
+    let pkg := ((sectOf parts "pkg").splitOn ";").filterMap parseFunc
+    let itemsS := ((sectOf parts "items").splitOn ";").filter (fun x => !x.trimAscii.toString.isEmpty)
+    let items := itemsS.map parseItem
+    if items.any Option.isNone then "BAD"
+    else
+      let c : Wire.Cfg := { items := items.filterMap id, args := args, ret := ret, pkgFuncs := pkg }
+      let fuel := 4 * (c.items.length + 4)
+      let w := Wire.wireEval c fuel c.ret
+      match Wire.migrate c with
+      | none => "W migrate=refused"
+      | some ks => s!"W migrate=ok equal={Wire.V.beq (Wire.kEval ks fuel c.ret) w}"
+
 def handle (line : String) : String :=
   if line.startsWith "D " then handleDecl (line.drop 2).toString
   else if line.startsWith "E " then handleDeclWith planDumpE (line.drop 2).toString
@@ -160,6 +229,7 @@ def handle (line : String) : String :=
   else if line.startsWith "V" && line.length == 1 then "BAD"
   else if line.startsWith "I " then handleImports (line.drop 2).toString
   else if line.startsWith "F " then handleInstall (line.drop 2).trimAscii.toString
+  else if line.startsWith "W " then handleWire (line.drop 2).toString
   else "BAD"
 
 partial def loop (h : IO.FS.Stream) (out : IO.FS.Stream) : IO Unit := do
